@@ -186,7 +186,13 @@ func build(engine string, race bool) string {
 		ay.Env = env()
 		if o, err := ay.CombinedOutput(); err != nil {
 			autoNote = "automatic preemption points: not inserted (" + strings.TrimSpace(firstLines(string(o), 3)) + "); hand-placed yield sites only"
-		} else if msg, ok := tryBuild(engine, race, out, inst, "verif,autoyield"); ok {
+		} else if msg, ok := func() (string, bool) {
+			if os.Getenv("VERIF_AUTOYIELD_TESTFAIL") != "" {
+				// self-test of the fall-back path: break the instrumented copy on purpose
+				os.WriteFile(filepath.Join(inst, "verif_auto_broken.go"), []byte("package ristretto\nfunc init() { undefinedIdentifier() }\n"), 0o644)
+			}
+			return tryBuild(engine, race, out, inst, "verif,autoyield")
+		}(); ok {
 			autoNote = "automatic preemption points: " + strings.TrimSpace(string(o))
 			return out
 		} else {
